@@ -1,6 +1,6 @@
 (* C13 -- The three HTML policies differ only at the HTML elements (partial).  Property theorems only. *)
 From Rimu Require Import Base Regex RegexParse Str Types Tables Guards State Inline Block
-  Frame FrameBlock FrameInst OptionsLemmas MiscLemmas.
+  Frame FrameBlock FrameInst OptionsLemmas MiscLemmas Plain HtmlTag.
 
 (* the policy is a function of the two low bits of the safe mode only *)
 Theorem C13_policy_bits : forall m,
@@ -19,4 +19,26 @@ Proof. exact filter_cases. Qed.
 Print Assumptions C13_policy_cases.
 
 Example C13_ex : html_policy 13 = PDrop /\ html_policy 6 = PReplace /\ html_policy 11 = PEscape.
+Proof. vm_compute. repeat split. Qed.
+
+(* THE POLICIES DIFFER AT THE TAG AND NOWHERE ELSE: for every pre and post over letters, digits, blank, full stop and comma,
+   every tag name of letters and digits, of any length, and every session with the default definitions,
+   spans.render (pre <name> post) = pre . F . post   where F is what the policy of the session's safe mode makes of <name>
+   (C13_policy_cases: nothing, the replacement text, the escaped tag; or the tag itself in mode 0).
+   The tag is located with the exact regex semantics (one derivation of the generated HTML pattern on <name>...), swapped for
+   a placeholder before the quotes pass and restored after it: the surrounding text is rendered identically. *)
+Theorem C13_inline_tag : forall n s pre name post,
+  defaults s -> RegexAnalysis.over word_alphabet pre -> name_ok2 name -> RegexAnalysis.over word_alphabet name ->
+  RegexAnalysis.over word_alphabet post ->
+  spans_render (S (S (S (S n)))) s (pre ++ 60 :: name ++ 62 :: post) =
+  iret (pre ++ htmlSafeModeFilter s (60 :: name ++ [62]) ++ post).
+Proof. exact spans_render_tag. Qed.
+Print Assumptions C13_inline_tag.
+
+Example C13_ex_inline_tag :
+  let e m := mkIenv m $"<mark>replaced HTML</mark>" quotes_default replacements_default [] in
+  spans_render 6 (e 1%Z) $"some <b>bold, text" = iret $"some bold, text" /\
+  spans_render 6 (e 2%Z) $"some <b>bold, text" = iret $"some <mark>replaced HTML</mark>bold, text" /\
+  spans_render 6 (e 3%Z) $"some <b>bold, text" = iret $"some &lt;b&gt;bold, text" /\
+  spans_render 6 (e 0%Z) $"some <b>bold, text" = iret $"some <b>bold, text".
 Proof. vm_compute. repeat split. Qed.
